@@ -2,6 +2,7 @@ package props
 
 import (
 	"fmt"
+	"io"
 	"strings"
 
 	"github.com/alecthomas/participle/v2"
@@ -120,8 +121,15 @@ func c0102Child(mode string) mon.ChildFunc {
 						})
 					} else {
 						rr = realParse(func() (interface{}, error) {
+							if ii%4 == 3 {
+								// tracing is an observer: the result must be the same with it switched on
+								return gp.byK[k].ParseString("", text, participle.AllowTrailing(trailing), participle.Trace(io.Discard))
+							}
 							return gp.byK[k].ParseString("", text, participle.AllowTrailing(trailing))
 						})
+						if ii%4 == 3 {
+							c.Feature("parses_with_Trace_switched_on")
+						}
 					}
 					cfg := fmt.Sprintf("lookahead=%s trailing=%v ci=%v", kName(k), trailing, gp.ci)
 					report := func(class, what string) {
